@@ -114,6 +114,18 @@ def fold(node, env=None, ctors=()):
                 return CMP[type(n.ops[0])](f(n.left), f(n.comparators[0]))
             except TypeError as e:
                 raise NotConst(str(e))
+        if isinstance(n, ast.Compare) and len(n.ops) > 1 and all(type(o) in CMP for o in n.ops):
+            # a < b <= c : pairwise, left to right, short-circuit
+            left = f(n.left)
+            for o, cmp_ in zip(n.ops, n.comparators):
+                right = f(cmp_)
+                try:
+                    if not CMP[type(o)](left, right):
+                        return False
+                except TypeError as e:
+                    raise NotConst(str(e))
+                left = right
+            return True
         if isinstance(n, ast.BoolOp):
             if isinstance(n.op, ast.And):
                 r = True
@@ -148,6 +160,16 @@ def fold(node, env=None, ctors=()):
                 # a sibling helper the caller folds by re-entry (arguments are folded here, where comprehension variables are bound)
                 return cm[fn](*[f(a) for a in n.args], **{k.arg: f(k.value) for k in n.keywords if k.arg})
             hook = env.get("$objcall")
+            if hook is not None and isinstance(n.func, ast.Name) and n.func.id in hook[0]:
+                # a constructor call on its own: the object is kept as a token and its methods are folded when they are called
+                return hook[1](n.func.id, [f(a) for a in n.args], {k.arg: f(k.value) for k in n.keywords if k.arg}, "@new", [], {})
+            if hook is not None and isinstance(n.func, ast.Attribute) and not isinstance(n.func.value, ast.Call):
+                try:
+                    recv_ = f(n.func.value)
+                except NotConst:
+                    recv_ = None
+                if isinstance(recv_, ObjTok):
+                    return hook[1](recv_.cls, recv_, None, n.func.attr, [f(a) for a in n.args], {k.arg: f(k.value) for k in n.keywords if k.arg})
             if hook is not None and isinstance(n.func, ast.Attribute) and isinstance(n.func.value, ast.Call) and isinstance(n.func.value.func, ast.Name) \
                     and n.func.value.func.id in hook[0]:
                 # <Class>(args).<method>(args) on a class the caller can fold: constructor and method are folded by the caller's hook
@@ -156,6 +178,14 @@ def fold(node, env=None, ctors=()):
                                n.func.attr, [f(a) for a in n.args], {k.arg: f(k.value) for k in n.keywords if k.arg})
             if fn in ctors:
                 return Struct(fn, [f(a) for a in n.args], {k.arg: f(k.value) for k in n.keywords if k.arg}, n)
+            if fn in ("re.search", "re.match", "re.fullmatch", "re.findall", "re.split", "re.sub", "re.escape") and not n.keywords:
+                args_ = [f(a) for a in n.args]
+                try:
+                    return getattr(_re, fn[3:])(*args_)
+                except _re.error:
+                    raise Raised("re.error")
+                except Exception as e:
+                    raise NotConst(str(e))
             if fn == "re.compile" and not n.keywords:
                 try:
                     return _re.compile(*[f(a) for a in n.args])
@@ -226,6 +256,15 @@ def try_fold(node, env=None, ctors=(), default=None):
         return fold(node, env, ctors)
     except NotConst:
         return default
+
+
+class ObjTok:
+    """an object of a repository class built by folding its constructor (the caller's $objcall hook): .state is the folded attribute environment"""
+    def __init__(self, cls, state):
+        self.cls, self.state = cls, state
+
+    def __repr__(self):
+        return "<%s object>" % self.cls
 
 
 class EnumVal:
